@@ -170,9 +170,9 @@ def reframe (b : List Char) : List Char := reframeAux false b
 def removeUser (slots : List (Option Nat)) (u : Nat) : List (Option Nat) :=
   slots.map (fun s => if s == some u then none else s)
 
-/-- `for (i = 1; i < max_users; i++) if (!all_users[i]) break;` -/
+/-- `for (i = 1; i < max_users; i++) if (!all_users[i]) break;` (the start index is regenerated: `Gen.firstUserSlot`) -/
 def newSlot (slots : List (Option Nat)) : Nat :=
-  go (slots.drop 1) 1
+  go (slots.drop NV.Gen.C12.firstUserSlot) NV.Gen.C12.firstUserSlot
 where
   go : List (Option Nat) → Nat → Nat
     | [], i => i
